@@ -14,6 +14,9 @@
 #define ABTD_VERIF_OP_STORE 2
 #define ABTD_VERIF_OP_RMW 3
 #define ABTD_VERIF_OP_CAS 4
+/* after a store has been performed: what follows may be interleaved with
+ * other threads that have already seen the stored value */
+#define ABTD_VERIF_OP_POST 7
 extern void (*ABTD_verif_hook)(const void *addr, int op);
 #define ABTD_VERIF_ATOMIC(p, op)                                               \
     do {                                                                       \
@@ -795,6 +798,7 @@ static inline void ABTD_atomic_relaxed_clear_bool(ABTD_atomic_bool *ptr)
 #else
     *(volatile uint8_t *)&ptr->val = 0;
 #endif
+    ABTD_VERIF_ATOMIC(ptr, ABTD_VERIF_OP_POST);
 }
 
 static inline void ABTD_atomic_release_clear_bool(ABTD_atomic_bool *ptr)
@@ -805,6 +809,7 @@ static inline void ABTD_atomic_release_clear_bool(ABTD_atomic_bool *ptr)
 #else
     __sync_lock_release(&ptr->val);
 #endif
+    ABTD_VERIF_ATOMIC(ptr, ABTD_VERIF_OP_POST);
 }
 
 static inline ABT_bool
@@ -1080,6 +1085,7 @@ static inline void ABTD_atomic_relaxed_store_int(ABTD_atomic_int *ptr, int val)
 #else
     *(volatile int *)&ptr->val = val;
 #endif
+    ABTD_VERIF_ATOMIC(ptr, ABTD_VERIF_OP_POST);
 }
 
 static inline void ABTD_atomic_relaxed_store_size(ABTD_atomic_size *ptr,
@@ -1091,6 +1097,7 @@ static inline void ABTD_atomic_relaxed_store_size(ABTD_atomic_size *ptr,
 #else
     *(volatile size_t *)&ptr->val = val;
 #endif
+    ABTD_VERIF_ATOMIC(ptr, ABTD_VERIF_OP_POST);
 }
 
 static inline void ABTD_atomic_relaxed_store_int32(ABTD_atomic_int32 *ptr,
@@ -1102,6 +1109,7 @@ static inline void ABTD_atomic_relaxed_store_int32(ABTD_atomic_int32 *ptr,
 #else
     *(volatile int32_t *)&ptr->val = val;
 #endif
+    ABTD_VERIF_ATOMIC(ptr, ABTD_VERIF_OP_POST);
 }
 
 static inline void ABTD_atomic_relaxed_store_uint32(ABTD_atomic_uint32 *ptr,
@@ -1113,6 +1121,7 @@ static inline void ABTD_atomic_relaxed_store_uint32(ABTD_atomic_uint32 *ptr,
 #else
     *(volatile uint32_t *)&ptr->val = val;
 #endif
+    ABTD_VERIF_ATOMIC(ptr, ABTD_VERIF_OP_POST);
 }
 
 static inline void ABTD_atomic_relaxed_store_int64(ABTD_atomic_int64 *ptr,
@@ -1124,6 +1133,7 @@ static inline void ABTD_atomic_relaxed_store_int64(ABTD_atomic_int64 *ptr,
 #else
     *(volatile int64_t *)&ptr->val = val;
 #endif
+    ABTD_VERIF_ATOMIC(ptr, ABTD_VERIF_OP_POST);
 }
 
 static inline void ABTD_atomic_relaxed_store_uint64(ABTD_atomic_uint64 *ptr,
@@ -1135,6 +1145,7 @@ static inline void ABTD_atomic_relaxed_store_uint64(ABTD_atomic_uint64 *ptr,
 #else
     *(volatile uint64_t *)&ptr->val = val;
 #endif
+    ABTD_VERIF_ATOMIC(ptr, ABTD_VERIF_OP_POST);
 }
 
 static inline void ABTD_atomic_relaxed_store_ptr(ABTD_atomic_ptr *ptr,
@@ -1146,6 +1157,7 @@ static inline void ABTD_atomic_relaxed_store_ptr(ABTD_atomic_ptr *ptr,
 #else
     *(void *volatile *)&ptr->val = val;
 #endif
+    ABTD_VERIF_ATOMIC(ptr, ABTD_VERIF_OP_POST);
 }
 
 static inline void ABTD_atomic_release_store_int(ABTD_atomic_int *ptr, int val)
@@ -1158,6 +1170,7 @@ static inline void ABTD_atomic_release_store_int(ABTD_atomic_int *ptr, int val)
     *(volatile int *)&ptr->val = val;
     __sync_synchronize();
 #endif
+    ABTD_VERIF_ATOMIC(ptr, ABTD_VERIF_OP_POST);
 }
 
 static inline void ABTD_atomic_release_store_size(ABTD_atomic_size *ptr,
@@ -1171,6 +1184,7 @@ static inline void ABTD_atomic_release_store_size(ABTD_atomic_size *ptr,
     *(volatile size_t *)&ptr->val = val;
     __sync_synchronize();
 #endif
+    ABTD_VERIF_ATOMIC(ptr, ABTD_VERIF_OP_POST);
 }
 
 static inline void ABTD_atomic_release_store_int32(ABTD_atomic_int32 *ptr,
@@ -1184,6 +1198,7 @@ static inline void ABTD_atomic_release_store_int32(ABTD_atomic_int32 *ptr,
     *(volatile int32_t *)&ptr->val = val;
     __sync_synchronize();
 #endif
+    ABTD_VERIF_ATOMIC(ptr, ABTD_VERIF_OP_POST);
 }
 
 static inline void ABTD_atomic_release_store_uint32(ABTD_atomic_uint32 *ptr,
@@ -1197,6 +1212,7 @@ static inline void ABTD_atomic_release_store_uint32(ABTD_atomic_uint32 *ptr,
     *(volatile uint32_t *)&ptr->val = val;
     __sync_synchronize();
 #endif
+    ABTD_VERIF_ATOMIC(ptr, ABTD_VERIF_OP_POST);
 }
 
 static inline void ABTD_atomic_release_store_int64(ABTD_atomic_int64 *ptr,
@@ -1210,6 +1226,7 @@ static inline void ABTD_atomic_release_store_int64(ABTD_atomic_int64 *ptr,
     *(volatile int64_t *)&ptr->val = val;
     __sync_synchronize();
 #endif
+    ABTD_VERIF_ATOMIC(ptr, ABTD_VERIF_OP_POST);
 }
 
 static inline void ABTD_atomic_release_store_uint64(ABTD_atomic_uint64 *ptr,
@@ -1223,6 +1240,7 @@ static inline void ABTD_atomic_release_store_uint64(ABTD_atomic_uint64 *ptr,
     *(volatile uint64_t *)&ptr->val = val;
     __sync_synchronize();
 #endif
+    ABTD_VERIF_ATOMIC(ptr, ABTD_VERIF_OP_POST);
 }
 
 static inline void ABTD_atomic_release_store_ptr(ABTD_atomic_ptr *ptr,
@@ -1236,6 +1254,7 @@ static inline void ABTD_atomic_release_store_ptr(ABTD_atomic_ptr *ptr,
     *(void *volatile *)&ptr->val = val;
     __sync_synchronize();
 #endif
+    ABTD_VERIF_ATOMIC(ptr, ABTD_VERIF_OP_POST);
 }
 
 static inline int ABTD_atomic_exchange_int(ABTD_atomic_int *ptr, int v)
